@@ -492,30 +492,39 @@ def install_probes(ctx, holder):
     return inst
 
 
-def sequential(ctx, holder, n_programs, tag):
-    for p in range(n_programs):
-        world = World(ctx.rnd, "%s-s%d-%d" % (tag, ctx.shard, p))
+def program_rng(ctx, mode, p, seed=None, shard=None):
+    """Every program (world + operation sequence) has its own generator, so a witness can be replayed exactly:
+    tag 'seq:<seed>:<shard>:<p>:<tier>' identifies it."""
+    import random as _random
+    return _random.Random("C13/%s/%s/%s/%d/%s" % (mode, ctx.seed if seed is None else seed, ctx.shard if shard is None else shard, p, ctx.tier))
+
+
+def sequential(ctx, holder, n_programs, tag, only=None, seed=None, shard=None):
+    for p in (range(n_programs) if only is None else [only]):
+        prnd = program_rng(ctx, "seq", p, seed, shard)
+        world = World(prnd, "seq:%s:%s:%d:%s" % (ctx.seed if seed is None else seed, ctx.shard if shard is None else shard, p, ctx.tier))
         holder["world"] = world
-        r = Runner(ctx, world, ctx.rnd, "seq")
-        r.run(ctx.rnd.choice([50, 80, 120]) if not ctx.thorough else ctx.rnd.choice([50, 150, 500]))
+        r = Runner(ctx, world, prnd, "seq")
+        r.run(prnd.choice([50, 80, 120]) if not ctx.thorough else prnd.choice([50, 150, 500]))
         quiescent_checks(ctx, world, "seq")
         if p == 0 and ctx.shard == 0:
             ctx.extra["sample_history"] = r.log[:25]
 
 
-def threaded(ctx, holder, n_runs, tag):
+def threaded(ctx, holder, n_runs, tag, only=None, seed=None, shard=None):
     import random as _random
     sigs = set()
     tot = {"lines": 0, "yields": 0, "switches_in_repo": 0, "runs": 0, "threads": 0}
     sites = {}
     old = sys.getswitchinterval()
-    for p in range(n_runs):
-        world = World(ctx.rnd, "%s-t%d-%d" % (tag, ctx.shard, p))
+    for p in (range(n_runs) if only is None else [only]):
+        prnd = program_rng(ctx, "thr", p, seed, shard)
+        world = World(prnd, "thr:%s:%s:%d:%s" % (ctx.seed if seed is None else seed, ctx.shard if shard is None else shard, p, ctx.tier))
         holder["world"] = world
-        T = ctx.rnd.choice([2, 3, 4, 8])
-        runners = [Runner(ctx, world, _random.Random(ctx.rnd.getrandbits(64)), "thr", tid=t) for t in range(T)]
-        n_ops = ctx.rnd.choice([12, 20, 30])
-        inj = inject.YieldInjector(ctx.rnd.getrandbits(32), prob=ctx.rnd.choice([0.03, 0.08, 0.2]),
+        T = prnd.choice([2, 3, 4, 8])
+        runners = [Runner(ctx, world, _random.Random(prnd.getrandbits(64)), "thr", tid=t) for t in range(T)]
+        n_ops = prnd.choice([12, 20, 30])
+        inj = inject.YieldInjector(prnd.getrandbits(32), prob=prnd.choice([0.03, 0.08, 0.2]),
                                     files=("bip32", "base_wallet", "paper_wallet", "bip85", "keys", "wallet_utils"))
         errs = []
 
@@ -574,12 +583,24 @@ def run(ctx):
 
 
 def replay(ctx, monitor, case):
-    """Replays re-run the *kind* of workload deterministically from the seed of
-    the recorded shard (histories are regenerated, schedules re-sampled)."""
+    """A witness names its program ('seq:<seed>:<shard>:<p>:<tier>' in case['world']); the same world and operation
+    sequence are regenerated from that tag and re-run (several times for threaded programs: the workload is pinned, the
+    schedule is re-sampled with the same yield-injection seed)."""
     holder = {}
     inst = install_probes(ctx, holder)
     try:
-        sequential(ctx, holder, 8, "replay")
-        threaded(ctx, holder, 4, "replay")
+        tag = (case or {}).get("world", "") if isinstance(case, dict) else ""
+        parts = tag.split(":")
+        if len(parts) == 5 and parts[0] in ("seq", "thr"):
+            mode, seed, shard, p, tier = parts[0], int(parts[1]), int(parts[2]), int(parts[3]), parts[4]
+            ctx.tier = tier
+            if mode == "seq":
+                sequential(ctx, holder, 1, "replay", only=p, seed=seed, shard=shard)
+            else:
+                for _ in range(5):
+                    threaded(ctx, holder, 1, "replay", only=p, seed=seed, shard=shard)
+        else:
+            sequential(ctx, holder, 8, "replay")
+            threaded(ctx, holder, 4, "replay")
     finally:
         inst.remove()
